@@ -107,7 +107,7 @@ pub fn plain_ins(ch: &mut Choices, data_labels: &[String]) -> Vec<Line> {
         8 => one(ins("lui", vec![r(gp_reg(ch)), i(ch.int_in(0, 0xfffff))])),
         9 => {
             // print-style ecall with a known number
-            let n = *ch.pick(&[1i64, 11, 4, 5, 34, 41, 30]);
+            let n = if ch.chance(1, 2) { *ch.pick(&[1i64, 11, 4, 5, 34, 41, 30]) } else { *ch.pick(&crate::machine::NON_EXIT_ECALLS) };
             vec![ins("li", vec![r(A7), i(n)]), ins("ecall", vec![])]
         }
         10 => match ch.below(5) {
